@@ -2,7 +2,9 @@
   C09 — connection lifecycle events pair up and per-destination concurrency is bounded.
   Theorems about the task-system model `MitmVerif.C09` (Model/C09.lean) for EVERY schedule:
   `Reach n s` = `s` is reached from the initial state by some list of labels, i.e. by any interleaving
-  of task actions, any await outcome (normal / failure / cancellation) and any commands from the layer.
+  of task actions and done-callbacks (any choice of the next runnable), any await outcome (normal /
+  failure / cancellation) and any commands from the layer.  asyncio.wait and the done-callbacks are an
+  explicit part of the model (per-task callback lists, wait counter); see also `wait_counts_callbacks`.
   The hook counters are ghost state counting the `hook` labels of the schedule, so an inequality that
   holds in every reachable state is a statement about every prefix of every trace (hence about order).
 -/
@@ -77,6 +79,26 @@ theorem no_transports_after_return {n : Nat} {s : St} (h : Reach n s)
   have hci := hi.conn c hc
   exact ⟨he, hci.noopen_of_noentry he, (hci.settled_of_noentry he).2.1, (hci.settled_of_noentry he).2.2⟩
 
+/-- the explicit scheduler state is consistent in every reachable state: asyncio.wait's counter equals the number
+    of pending completion callbacks, a task's callbacks are release_transport first and the completion callback
+    behind it, and an entry is in transports only while its task's release_transport has not run -/
+theorem wait_counts_callbacks {n : Nat} {s : St} (h : Reach n s) :
+    s.hcount = s.conns.countP hasWait + cwait s ∧
+    ∀ c ∈ s.conns, (c.cbs = [.release] ∨ c.cbs = [.release, .waitH] ∨ c.cbs = [.waitH] ∨ c.cbs = []) ∧
+      (c.entry = true → c.cbs = [.release] ∨ c.cbs = [.release, .waitH]) :=
+  ⟨(Reach.inv h).1.wait, (Reach.inv h).1.cb⟩
+
+/-- handle_client passes its final `asyncio.wait` only when no awaited task has a pending callback, and while it
+    waits every entry still in transports belongs to a task it waits for (no late open) -/
+theorem final_wait_covers_transports {n : Nat} {s : St} (h : Reach n s) (hf : s.hpc = .final)
+    (hq : s.lateOpen = false) : ∀ c ∈ s.conns, c.entry = true → hasWait c = true ∧ 0 < s.hcount := by
+  intro c hc he
+  have hi := (Reach.inv h).1
+  have hw := hi.fin hf hq c hc he
+  have : 0 < s.conns.countP hasWait := List.countP_pos_iff.mpr ⟨c, hc, hw⟩
+  have := hi.wait
+  exact ⟨hw, by omega⟩
+
 /-! ### non-vacuity -/
 
 /-- a complete run: connect, serve, peer closes, client closes, handle_client returns -/
@@ -88,7 +110,7 @@ def happy : List Label :=
    .act (.S 0) (.ev .cok []), .act (.S 0) (.readret .eof), .act (.S 0) (.ev .closed []),
    .act (.S 0) .wclose, .act (.S 0) (.hook .sx), .act (.S 0) (.hookret .ok false), .act (.S 0) .semrel,
    .act (.S 0) .fin,
-   .act .C (.readret .eof), .act .C (.ev .closed []), .act .C .wclose, .act .C .fin,
+   .act .C (.readret .eof), .act .C (.ev .closed []), .act .C .wclose, .act .C .fin, .cb .C, .cb .C,
    .act .H (.hook .cd), .act .H (.hookret .ok false), .act .H .fin]
 
 example : ∃ s, Reach 5 s ∧ s.hpc = .returned ∧ s.lateOpen = false ∧ s.nCC = 1 ∧ s.nCD = 1 ∧
@@ -99,10 +121,10 @@ example : ∃ s, Reach 5 s ∧ s.hpc = .returned ∧ s.lateOpen = false ∧ s.nC
 example : ∃ s, Reach 5 s ∧ s.hpc = .returned ∧ (s.conns.map (fun c => (c.nSC, c.nSD, c.nSE, c.nSX))) = [(1, 0, 1, 0)] :=
   ⟨_, ⟨[.act .H (.hook .cc), .act .H (.hookret .ok false), .act .H (.ev .start [.opn 0 (some 0)]),
         .act .C .start, .act (.S 0) .start, .act (.S 0) (.hook .sc),
-        .act .C (.readret .eof), .act .C (.ev .closed []), .act .C .wclose, .act .C .fin,
+        .act .C (.readret .eof), .act .C (.ev .closed []), .act .C .wclose, .act .C .fin, .cb .C, .cb .C,
         .act .H (.hook .cd), .act .H (.hookret .ok false),
         .act (.S 0) (.hookret .cancel false), .act (.S 0) (.hook .se), .act (.S 0) (.hookret .ok false),
-        .act (.S 0) (.ev .cerr []), .act (.S 0) .fin, .forget (.S 0), .act .H .fin], rfl⟩, by decide⟩
+        .act (.S 0) (.ev .cerr []), .act (.S 0) .fin, .cb (.S 0), .cb (.S 0), .act .H .fin], rfl⟩, by decide⟩
 
 /-- the model is not constant: the semaphore refuses a sixth holder, handle_client cannot return while a
     collected transport is still there, and a second OpenConnection for a live entry is refused -/
@@ -118,12 +140,27 @@ example : run (init 5) [.act .H (.hook .cc), .act .H (.hookret .ok false),
 example : run (init 5) [.act .H (.hook .cc), .act .H (.hookret .ok true), .act .H .wclose,
     .act .H (.hook .cd), .act .H (.hookret .ok false), .act .H .fin] ≠ none := by decide
 
+/-- the scheduler rules are not vacuous: handle_client cannot pass `asyncio.wait([handler])` before the client
+    handler's callbacks have run, a callback cannot run before its task has finished, and the completion callback
+    cannot overtake release_transport (the second `cb` is the one that counts the wait down) -/
+example : run (init 5) [.act .H (.hook .cc), .act .H (.hookret .ok false), .act .H (.ev .start []), .act .C .start,
+    .act .C (.readret .eof), .act .C (.ev .closed []), .act .C .wclose, .act .C .fin, .cb .C,
+    .act .H (.hook .cd)] = none := by decide
+
+example : run (init 5) [.act .H (.hook .cc), .act .H (.hookret .ok false), .act .H (.ev .start []), .act .C .start,
+    .cb .C] = none := by decide
+
+/-- handle_client's final wait cannot end while an awaited task's callbacks are pending -/
+example : run (init 5) [.act .H (.hook .cc), .act .H (.hookret .ok false), .act .H (.ev .start [.opn 0 (some 0)]),
+    .act .C .start, .act .C (.readret .eof), .act .C (.ev .closed []), .act .C .wclose, .act .C .fin, .cb .C, .cb .C,
+    .act .H (.hook .cd), .act .H (.hookret .ok false), .act (.S 0) .fin, .cb (.S 0), .act .H .fin] = none := by decide
+
 /-- the hypothesis of `no_transports_after_return` is needed in this model: a layer that opens a connection
     while handle_client waits leaves an entry behind -/
 example : ∃ s, Reach 5 s ∧ s.hpc = .returned ∧ s.lateOpen = true ∧ (s.conns.map (·.entry)) = [true] :=
   ⟨_, ⟨[.act .H (.hook .cc), .act .H (.hookret .ok false), .act .H (.ev .start [.spawn]),
         .act .C .start, .act (.K 0) .start, .act (.K 0) (.hook .hk),
-        .act .C (.readret .eof), .act .C (.ev .closed []), .act .C .wclose, .act .C .fin,
+        .act .C (.readret .eof), .act .C (.ev .closed []), .act .C .wclose, .act .C .fin, .cb .C, .cb .C,
         .act .H (.hook .cd), .act .H (.hookret .ok false),
         .act (.K 0) (.hookret .ok false), .act (.K 0) (.ev .hookdone [.opn 0 (some 0)]),
         .act .H .fin], rfl⟩, by decide⟩
